@@ -179,6 +179,18 @@ def r12_3(ctx):
                     n += 1
                     ctx.check(f"{q}: initialiser `{call_txt[:40]}` on path [{bp.guard_text()[:50]}]", used or empty_guard or hybrid_skip, "appended to res, or empty", "generated but not appended" if not (used or empty_guard or hybrid_skip) else "ok", fn_where(idx, fi), nontrivial=used)
         ctx.need(n >= 1, f"{q}: no initialiser call found in its loop")
+        # ... and nothing is skipped before its initialiser was even asked for: in a loop that prints initialisers every iteration
+        # does so (the one reviewed skip: hybrids in the EXEC block - the WRITE block prints them)
+        for lp in loops:
+            emitting = any(any(e.kind == "call" and isinstance(e.node, ast.Call) and call_tail(e.node).startswith("il_init") for e in bp.events) for bp in lp.extra)
+            if not emitting:
+                continue
+            for bp in lp.extra:
+                if any(e.kind == "call" and isinstance(e.node, ast.Call) and call_tail(e.node).startswith("il_init") for e in bp.events):
+                    continue
+                reviewed = q == "emit_exec_block" and any(pol and U(g).startswith("isinstance(") and "Hybrid" in U(g) for g, pol in bp.guards)
+                ctx.check(f"{q}: iteration skipped without printing [{bp.guard_text()[:60]}]", reviewed, "every operand of the list is initialised (hybrids of the EXEC block are printed by the WRITE block)",
+                          f"skipped when {bp.guard_text()[:80]}: the other layout / later blocks still refer to the operand", fn_where(idx, fi))
         rets = [p for p in ps if p.outcome == "return"]
         ctx.check(f"{q} returns the accumulated text", all(U(p.value).startswith("@loopphi(") or U(p.value) == "res" or "res" in U(p.value) for p in rets), "return res", str({U(p.value)[:40] for p in rets}), fn_where(idx, fi), nontrivial=False)
     fe = idx.func("RZILTransformer.emit_final_seq_return")
@@ -378,6 +390,7 @@ def r12_10(ctx):
     from .c11 import r11_6
 
     r11_6(ctx)
+    no_conversion_of_removed_operands(ctx)
 
 
 CONSUMING_READS = ("il_read", "il_exec", "effect_var", "pure_var_consumed")
@@ -427,3 +440,34 @@ def r12_12(ctx):
 
     r14_5(ctx)
     branch_emits_both_arms(ctx)
+
+
+CONVERTING_HELPERS = {"promotion_cast", "init_a_cast", "cast_operands", "add_op"}
+
+
+def no_conversion_of_removed_operands(ctx):
+    """a constant folder that takes an operand out of the holder must not have built anything from it before: the conversion node would
+    stay registered and refer to an operand that is declared nowhere (the block layout prints every registered operation)"""
+    idx = get_index(ctx.env)
+    n = 0
+    for q in ("simplify_unary_expr", "simplify_arithmetic_expr", "simplify_compare_expr", "simplify_conditional_expr"):
+        fi = idx.func(f"RZILTransformer.{q}")
+        bad = []
+        for p in paths_of(fi.node):
+            removed = set()
+            converted = []
+            for e in p.events:
+                if e.kind != "call" or not isinstance(e.node, ast.Call):
+                    continue
+                t = call_tail(e.node)
+                if t == "rm_op_by_name" and e.node.args:
+                    removed.add(U(e.node.args[0]).replace(".get_name()", ""))
+                elif t in CONVERTING_HELPERS:
+                    for a in list(e.node.args) + [k.value for k in e.node.keywords]:
+                        converted.append((U(a), U(e.node)[:50], e.lineno))
+            for arg, call, ln in converted:
+                if arg in removed:
+                    bad.append(f"line {ln}: {call} builds on {arg}, which this path removes")
+        n += 1
+        ctx.check(f"{q}: nothing is built from an operand the path removes", not bad, "removed operands are not converted / registered again", "; ".join(sorted(set(bad))[:2]) or "ok", fn_where(idx, fi))
+    ctx.need(n == 4, "folders not found")
